@@ -132,6 +132,110 @@ theorem C15_folder_methods_ignore_health (r : FolderRec) (h v : Health) :
   · have := e.1.symm.trans e'.1; simpa using this.symm
   · exact Prod.ext (e'.2.2.1.trans e.2.2.1.symm) (e'.2.2.2.1.trans e.2.2.2.1.symm)
 
+/-! ### `_restoring_timestep`: the one method where a folder's `deleted` flag and its health meet -/
+
+theorem folder_set_deleted_false_of (g : Folder) (h : g.deleted = false) : { g with deleted := false } = g := by
+  cases g; simp_all
+
+/-- The two loops of `_restoring_timestep`: restore every live file by name, then every file that was in `deleted_files` when the
+first loop ended. -/
+def restoreLoops (g1 : Folder) : Folder :=
+  (g1.files.foldl (fun (a : Folder) (file : File) => (a.restoreFile file.name).1) g1).deletedFiles.foldl
+    (fun (a : Folder) (file : File) => (a.restoreFile file.name).1)
+    (g1.files.foldl (fun (a : Folder) (file : File) => (a.restoreFile file.name).1) g1)
+
+theorem restoringTimestep_eq (g : Folder) :
+    g.restoringTimestep =
+      if g.restoreCountdown ≥ 0 then
+        if g.restoreCountdown - 1 = 0 then { restoreLoops { g with restoreCountdown := g.restoreCountdown - 1 } with deleted := false }
+        else { g with restoreCountdown := g.restoreCountdown - 1 }
+      else g := rfl
+
+theorem folderRestoringTimestep_eq (r : FolderRec) :
+    folderRestoringTimestep r =
+      if r.g.restoreCountdown ≥ 0 then
+        if r.g.restoreCountdown - 1 = 0 then
+          if (restoreLoops { r.g with restoreCountdown := r.g.restoreCountdown - 1 }).deleted then
+            { r with g := { restoreLoops { r.g with restoreCountdown := r.g.restoreCountdown - 1 } with deleted := false } }
+          else if (r.health == Health.corrupt || r.health == Health.restoring) then
+            { r with g := restoreLoops { r.g with restoreCountdown := r.g.restoreCountdown - 1 }, health := .good }
+          else { r with g := restoreLoops { r.g with restoreCountdown := r.g.restoreCountdown - 1 } }
+        else { r with g := { r.g with restoreCountdown := r.g.restoreCountdown - 1 } }
+      else r := by
+  unfold folderRestoringTimestep
+  by_cases h1 : r.g.restoreCountdown ≥ 0
+  · by_cases h2 : r.g.restoreCountdown - 1 = 0
+    · simp only [h1, h2, decide_true, if_true]; rfl
+    · simp only [h1, h2, decide_true, decide_false, if_true, if_false, Bool.false_eq_true]
+  · simp only [h1, decide_false, if_false, Bool.false_eq_true]
+
+/-- `Folder._restoring_timestep` as translated from folder.py (countdown, the two restore loops — the second over a copy of
+`deleted_files` taken before it starts —, then `if self.deleted: … elif self.health_status in [CORRUPT, RESTORING]: …`) is the
+structural model's `restoringTimestep` for EVERY folder health; the health is reset to GOOD only when the restore completes on a
+folder that is not flagged deleted. -/
+theorem C15_gen_restoring_timestep (r : FolderRec) :
+    (folderRestoringTimestep r).g = r.g.restoringTimestep ∧
+    (folderRestoringTimestep r).health =
+      (if r.g.restoreCountdown ≥ 0 ∧ r.g.restoreCountdown - 1 = 0 ∧
+          (restoreLoops { r.g with restoreCountdown := r.g.restoreCountdown - 1 }).deleted = false ∧
+          (r.health = .corrupt ∨ r.health = .restoring) then .good else r.health) := by
+  rw [folderRestoringTimestep_eq, restoringTimestep_eq]
+  generalize restoreLoops { r.g with restoreCountdown := r.g.restoreCountdown - 1 } = g3
+  generalize ({ r.g with restoreCountdown := r.g.restoreCountdown - 1 } : Folder) = g1
+  obtain ⟨g, h, v⟩ := r
+  by_cases h1 : g.restoreCountdown ≥ 0
+  · by_cases h2 : g.restoreCountdown - 1 = 0
+    · by_cases hd : g3.deleted = true
+      · simp [h1, h2, hd]
+      · have hd' : g3.deleted = false := by simpa using hd
+        cases h <;> simp [h1, h2, hd', folder_set_deleted_false_of g3 hd']
+    · simp [h1, h2]
+  · simp [h1]
+
+/-- The structural effect of `_restoring_timestep` does not depend on the folder's health. -/
+theorem C15_restoring_timestep_ignores_health (r : FolderRec) (h v : Health) :
+    (folderRestoringTimestep { r with health := h, visible := v }).g = (folderRestoringTimestep r).g := by
+  rw [(C15_gen_restoring_timestep _).1, (C15_gen_restoring_timestep r).1]
+
+/-! ### lookups and state-level methods, translated (round 4, item 4: semantic instead of textual tie) -/
+
+/-- `Folder.get_file`, `Folder.remove_file`, `Folder.remove_file_by_name` and `FileSystem.get_folder` as translated from the source
+are the model's functions, for all arguments. -/
+theorem C15_gen_lookups (s : State) (g : Folder) (f : File) (n : Name) (incl : Bool) :
+    folderGetFile g n incl = g.getFile n incl ∧ folderRemoveFile g f = g.removeFile f ∧
+    folderRemoveFileByName g n = g.removeFileByName n ∧ fsGetFolder s n incl = getFolder s n incl := by
+  refine ⟨?_, ?_, ?_, ?_⟩
+  · unfold folderGetFile Folder.getFile
+    cases g.files.find? (fun f => f.name == n) with
+    | some f => rfl
+    | none => cases incl <;> simp <;> cases g.deletedFiles.find? (fun f => f.name == n) <;> rfl
+  · unfold folderRemoveFile Folder.removeFile
+    split <;> rfl
+  · unfold folderRemoveFileByName Folder.removeFileByName
+    cases g.files.find? (fun f => f.name == n) <;> rfl
+  · unfold fsGetFolder getFolder
+    cases s.folders.find? (fun g => g.name == n) with
+    | some g => rfl
+    | none => cases incl <;> simp <;> cases s.deletedFolders.find? (fun g => g.name == n) <;> rfl
+
+/-- `FileSystem.delete_file` and `FileSystem.restore_file` as translated from the source are the model's `deleteFile` /
+`restoreFile` (state and answer), for every state and names. -/
+theorem C15_gen_fs_delete_restore_file (s : State) (F x : Name) :
+    (fsDeleteFile s F x).1 = (deleteFile s F x).1 ∧ ((fsDeleteFile s F x).2 = true ↔ (deleteFile s F x).2 = .success) ∧
+    (fsRestoreFile s F x).1 = (restoreFile s F x).1 ∧ ((fsRestoreFile s F x).2 = true ↔ (restoreFile s F x).2 = .success) := by
+  unfold fsDeleteFile deleteFile fsRestoreFile restoreFile getFile
+  cases hg : getFolder s F with
+  | none => simp [hg]
+  | some g =>
+    simp only [hg]
+    refine ⟨?_, ?_, ?_, ?_⟩
+    · cases g.getFile x <;> simp [updFolder]
+    · cases g.getFile x <;> simp
+    · cases g.getFile x true <;> simp
+    · cases g.getFile x true with
+      | none => simp
+      | some f => cases (g.restoreFile x).2 <;> simp [ofBool]
+
 /-! ### translator tie: the enum and the complete list of places where the four classes look at health -/
 
 theorem C15_gen_health_enum :
